@@ -70,7 +70,7 @@ def _case(draw, stratum):
         "label": draw(st.sampled_from([None, "step"])),
     }
     if stratum == "order":
-        twist = draw(st.sampled_from(["perm-wells", "perm-tips", "perm-both-same", "repeat-well", "repeat-tip", "tip-any", "reverse-both"]))
+        twist = draw(st.sampled_from(["perm-wells", "perm-tips", "perm-both-same", "perm-both", "perm-both", "repeat-well", "repeat-tip", "tip-any", "reverse-both"]))
         case["twist"] = twist
         if k == 1 and twist.startswith(("perm", "reverse")):
             twist = case["twist"] = "repeat-tip" if draw(st.booleans()) else "tip-any"
@@ -84,6 +84,9 @@ def _case(draw, stratum):
             case["tips"] = [case["tips"][i] for i in p]
             if pertip:
                 case["vols"] = [vols[i] for i in p]
+        elif twist == "perm-both":
+            case["wells"] = draw(st.permutations(case["wells"]))
+            case["tips"] = draw(st.permutations(case["tips"]))
         elif twist == "reverse-both":
             case["wells"] = case["wells"][::-1]
             case["tips"] = case["tips"][::-1]
